@@ -162,21 +162,21 @@ mod verif_c18 {
 
     /// Rounded rectangle with four INDEPENDENT (fitting) corner radii: mirroring the shape (swapping
     /// the left and right corner radii) mirrors contains(); each corner is governed by its own radius.
-    /// Decides left/right mix-ups between the corners. Sizes and radii are built from 4-bit values so
+    /// Decides left/right mix-ups between the corners. Sizes and radii are built from 3-bit values so
     /// that the 64-bit products of the corner ellipses stay small for the SAT solver.
-    //@harness prop=C18 kind=lemma tier=quick class=P bound="rectangle <= 15x15, radii <= 15 that fit, probe within +-24 of the shape" timeout=1200 fns=src/primitives/rounded_rectangle/mod.rs::RoundedRectangleContains::contains;src/primitives/rounded_rectangle/mod.rs::RoundedRectangleContains::new
+    //@harness prop=C18 kind=lemma tier=quick class=P bound="rectangle <= 7x7, radii <= 7 that fit, probe within +-12 of the shape" timeout=900 fns=src/primitives/rounded_rectangle/mod.rs::RoundedRectangleContains::contains;src/primitives/rounded_rectangle/mod.rs::RoundedRectangleContains::new
     #[kani::proof]
     #[kani::stub_verified(crate::primitives::rounded_rectangle::CornerRadii::confine)]
     #[kani::stub_verified(crate::primitives::ellipse::EllipseContains::contains)]
     fn c18_rounded_rectangle_mirror_symmetry() {
-        let nib = || (kani::any::<u8>() & 15) as u32;
+        let nib = || (kani::any::<u8>() & 7) as u32;
         let s = Size::new(nib(), nib());
         kani::assume(s.width >= 1 && s.height >= 1);
         let r = Rectangle::new(any_point(256), s);
         let c = CornerRadii { top_left: Size::new(nib(), nib()), top_right: Size::new(nib(), nib()), bottom_right: Size::new(nib(), nib()), bottom_left: Size::new(nib(), nib()) };
         kani::assume(crate::primitives::rounded_rectangle::verif_fits(&c, s));
         let q = any_point(512);
-        kani::assume((q.x as i64 - r.top_left.x as i64).abs() <= 24 && (q.y as i64 - r.top_left.y as i64).abs() <= 24);
+        kani::assume((q.x as i64 - r.top_left.x as i64).abs() <= 12 && (q.y as i64 - r.top_left.y as i64).abs() <= 12);
         let rr = RoundedRectangle::new(r, c);
         let m = RoundedRectangle::new(r, CornerRadii { top_left: c.top_right, top_right: c.top_left, bottom_left: c.bottom_right, bottom_right: c.bottom_left });
         let mq = Point::new(2 * r.top_left.x + s.width as i32 - 1 - q.x, q.y);
